@@ -148,6 +148,7 @@ REVERTS: list[tuple[str, str, list[str]]] = [
     ("revert-F11", "fix: record member sizes of a dynamic union", ["C09.R4"]),
     ("revert-F12", "fix: alias typedefs of array and pointer types", ["C20.R6"]),
     ("revert-F13", "fix: emit the integer value of anonymous enum members", ["C20.R7"]),
+    ("revert-F14", "fix: seek to the field offset when a compiled read block starts behind a gap", ["C03.R8"]),
 ]
 
 # behaviour-preserving textual twins (id, file, old, new)
